@@ -236,3 +236,53 @@ def as_view(a):
     big = np.zeros(a.shape[:-1] + (a.shape[-1] * 2,), dtype=a.dtype)
     big[..., ::2] = a
     return big[..., ::2]
+
+
+# --------------------------------------------------------------------------- call styles
+# Parameter order and defaults of the public constructors / functions AS DOCUMENTED AT THE PINNED
+# COMMIT (not introspected from the tree under test: a reordered signature must not go unnoticed).
+_REQ = object()
+SIGNATURES = {
+    "PowerMethod": [("A", _REQ), ("x", _REQ), ("norm_func", None), ("max_iter", 30)],
+    "GradientMethod": [("gradf", _REQ), ("x", _REQ), ("alpha", _REQ), ("proxg", None), ("accelerate", False),
+                       ("max_iter", 100), ("tol", 0)],
+    "ConjugateGradient": [("A", _REQ), ("b", _REQ), ("x", _REQ), ("P", None), ("max_iter", 100), ("tol", 0)],
+    "PrimalDualHybridGradient": [("proxfc", _REQ), ("proxg", _REQ), ("A", _REQ), ("AH", _REQ), ("x", _REQ), ("u", _REQ),
+                                 ("tau", _REQ), ("sigma", _REQ), ("theta", 1), ("gamma_primal", 0), ("gamma_dual", 0),
+                                 ("max_iter", 100), ("tol", 0)],
+    "AltMin": [("min1", _REQ), ("min2", _REQ), ("max_iter", 30)],
+    "NewtonsMethod": [("gradf", _REQ), ("inv_hessf", _REQ), ("x", _REQ), ("beta", 1), ("f", None), ("max_iter", 10),
+                      ("tol", 0)],
+    "GerchbergSaxton": [("A", _REQ), ("y", _REQ), ("x0", _REQ), ("max_iter", 500), ("tol", 0), ("max_tol", 0), ("lamb", 0)],
+    "LinearLeastSquares": [("A", _REQ), ("y", _REQ), ("x", None), ("proxg", None), ("lamda", 0), ("G", None), ("g", None),
+                           ("z", None), ("solver", None), ("max_iter", 100), ("P", None), ("alpha", None),
+                           ("max_power_iter", 30), ("accelerate", True), ("tau", None), ("sigma", None), ("rho", 1),
+                           ("max_cg_iter", 10), ("tol", 0), ("save_objective_values", False), ("show_pbar", True),
+                           ("leave_pbar", True)],
+    "poisson": [("img_shape", _REQ), ("accel", _REQ), ("calib", (0, 0)), ("dtype", np.complex128), ("crop_corner", True),
+                ("return_density", False), ("seed", 0), ("max_attempts", 30), ("tol", 0.1)],
+}
+
+
+def as_positional(name, args, kwargs):
+    """The same call with every argument up to the last one given passed by position, in the
+    documented order; parameters the caller left out in between get their documented default."""
+    sig = SIGNATURES[name]
+    names = [n for n, _ in sig]
+    for kname in kwargs:
+        if kname not in names:
+            return tuple(args), dict(kwargs)  # not expressible by position
+    last = len(args) - 1
+    for i, (n, _) in enumerate(sig):
+        if n in kwargs:
+            last = max(last, i)
+    out = list(args)
+    for i in range(len(args), last + 1):
+        n, dflt = sig[i]
+        if n in kwargs:
+            out.append(kwargs[n])
+        elif dflt is _REQ:
+            return tuple(args), dict(kwargs)
+        else:
+            out.append(dflt)
+    return tuple(out), {}
